@@ -185,23 +185,19 @@ Theorem locate_insertion f h ws off F lo loc :
   Z.of_nat (lline loc) = stated_pos h off.
 Proof.
   unfold locate_hunk. intros H Hc. apply Z.eqb_eq in Hc. rewrite Hc in H.
-  destruct (Z.eqb (rstart (oldr h)) 0 && negb (is_nil f)); [discriminate|].
   destruct (_ || _) eqn:E; [discriminate|]. apply orb_false_iff in E. destruct E as [E1 E2].
   apply Z.ltb_ge in E1, E2. injection H as <-. cbn [lline lfuzz loffset].
   unfold stated_pos, expected_line_number in *. rewrite Hc in *. repeat split; lia.
 Qed.
 
 Theorem locate_insertion_complete f h ws off F lo :
-  rcount (oldr h) = 0%Z -> ~ (rstart (oldr h) = 0%Z /\ f <> []) ->
+  rcount (oldr h) = 0%Z ->
   (Z.of_nat lo <= stated_pos h off <= Z.of_nat (length f))%Z ->
   locate_hunk f h ws off F lo = Some (mkLoc (Z.to_nat (stated_pos h off)) 0 0).
 Proof.
-  unfold locate_hunk, stated_pos, expected_line_number. intros Hc Hn Hr. apply Z.eqb_eq in Hc. rewrite Hc in *.
-  destruct (Z.eqb (rstart (oldr h)) 0 && negb (is_nil f)) eqn:E.
-  - exfalso. apply andb_true_iff in E. destruct E as [E1 E2]. apply Z.eqb_eq in E1.
-    apply Hn. split; [exact E1|]. destruct f; [discriminate|discriminate].
-  - destruct (_ || _) eqn:E2; [|reflexivity]. exfalso.
-    apply orb_true_iff in E2. destruct E2 as [E2|E2]; apply Z.ltb_lt in E2; lia.
+  unfold locate_hunk, stated_pos, expected_line_number. intros Hc Hr. apply Z.eqb_eq in Hc. rewrite Hc in *.
+  destruct (_ || _) eqn:E2; [|reflexivity]. exfalso.
+  apply orb_true_iff in E2. destruct E2 as [E2|E2]; apply Z.ltb_lt in E2; lia.
 Qed.
 
 Theorem locate_min_fuzz f h ws off F lo loc pos fz :
